@@ -679,13 +679,21 @@ func runSeq(args []string) int {
 	} else {
 		scs = genScenarios(o, r)
 	}
+	perSig := map[string]int{}
 	for i, sc := range scs {
 		if only != "" && sc.Family != only {
 			continue
 		}
 		before := tr.N
 		fs := runScenario(sc, i, tr, st, o.Out)
-		fails = append(fails, fs...)
+		for _, f := range fs {
+			// keep a few examples of every class of failure, so that one noisy class cannot hide the others
+			k := f.Property + "/" + f.Signature
+			if perSig[k] < 4 {
+				perSig[k]++
+				fails = append(fails, f)
+			}
+		}
 		key, nontrivial := shapeOf(o.Out, tr, before)
 		st.Eval(key, nontrivial)
 		st.Count("family:" + sc.Family)
@@ -693,7 +701,7 @@ func runSeq(args []string) int {
 		if i%37 == 0 {
 			st.Sample(map[string]any{"family": sc.Family, "pool": sc.Pool, "entries": len(sc.Entries), "cmds": cmdSummary(sc)})
 		}
-		if len(fails) > 40 {
+		if len(fails) > 400 {
 			break
 		}
 	}
